@@ -188,6 +188,9 @@ let run (cmd : sexp) : sexp =
   | L [A "eval"; a; vs; ss; ex] -> bool_ (Concrete.m_eval (env_ vs ss) (strs ex) (tree a))
   | L [A "simpx"; a; ex] -> stree (Concrete.m_simplify_extras (strs ex) (tree a))
   | L [A "evalx"; a; ex] -> bool_ (Concrete.m_eval_extras (strs ex) (tree a))
+  | L [A "evalxpv"; pvk; L vs; ex; a] ->
+      bool_ (Concrete.m_eval_extras_pv (num pvk) (Stdlib.List.map (fun v -> match value v with Coq_inl x -> x | _ -> failwith "driver: version expected") vs) (strs ex) (tree a))
+  | L [A "withextra"; pv; pfv; a; name] -> stree (ExtrasProofs.m_with_extra (num pv) (num pfv) (tree a) (str name))
   | L [A "valcmp"; a; b] -> scmp (Concrete.m_val_cmp (value a) (value b))
   | L [A "varcmp"; a; b] -> scmp (Concrete.m_var_cmp (var_ a) (var_ b))
   | L [A "substring"; a; b] -> bool_ (Concrete.substring (str a) (str b))
